@@ -107,6 +107,10 @@ def run (arg : Int) (s : St) : List (Nat × Int) → St
   | [] => s
   | (t, now) :: r => run arg (step arg s t now) r
 
+/-- `Start(arg)` ALONE on a schedule nobody has touched: caller 0 runs `prog` to its end, one access per step -/
+def soloStart (arg : Int) (prog : List Stmt) : St :=
+  run arg { initLazy [] with th := fun j => if j = 0 then prog else [] } (List.replicate prog.length (0, 0))
+
 /-- the shapes of `Next` for which the lazy start is proved safe (`Proofs/C01Conc.run_inv`).
 
 `safeOnce k rest` — `onceEnter k :: rest`: the body of the Once only marks the schedule started (at most once) and stores
